@@ -1,7 +1,5 @@
 //@unit c02_weakly__pins props=C02,C04 widths=u32
 //@use prelude/head.rs
 // not under contract: the merge step of the Pager construction (judged by the canonical-LR(1) oracle when one changes)
-//@pin file=lrtable/src/lib/pager.rs fn=weakly_merge sha=c992c1a4fd5966eb
-//@pin file=lrtable/src/lib/pager.rs fn=vob_intersect sha=d9bfb586fce0ca5c
 //@pin file=lrtable/src/lib/itemset.rs fn=add sha=8ff3228d8f82d7be
 //@use prelude/tail.rs
